@@ -49,9 +49,12 @@ Lemma xhs_scalar s u x : x_has_secret (XScalar s u x) = s.
 Proof. reflexivity. Qed.
 
 Lemma cu_of_export c x : export big_fuel c = Some x -> contains_unknowns c = x_has_unknown x.
-Proof. intro H. unfold contains_unknowns. rewrite H. reflexivity. Qed.
+Proof. intro H. unfold contains_unknowns, export_t. rewrite H. reflexivity. Qed.
+(* inside the evaluator the merged view is [export_t]: the constant fuel first *)
+Lemma et_of_export c x : export big_fuel c = Some x -> export_t c = Some x.
+Proof. intro H. unfold export_t. rewrite H. reflexivity. Qed.
 Lemma cs_of_export c x : export big_fuel c = Some x -> contains_secrets c = x_has_secret x.
-Proof. intro H. unfold contains_secrets. rewrite H. reflexivity. Qed.
+Proof. intro H. unfold contains_secrets, export_t. rewrite H. reflexivity. Qed.
 
 (* ------------------------------------------------------------------------------------------------ *)
 (* 2. the specification functions                                                                     *)
@@ -83,7 +86,7 @@ Definition spec_tojson (v : xval) : option xval :=
 
 (* fn::fromJSON s = the value of the JSON text s, every node secret iff s is; [x_of_single] is what a single-layer
    value looks like once merged: see export_unexport in BuiltinsJson.v *)
-Notation x_of_single v := (export big_fuel (unexport big_fuel false v)).
+Notation x_of_single v := (export big_fuel (unexport (S (x_depth v)) false v)).
 
 Definition spec_fromjson (v : xval) : option xval :=
   match v with
@@ -162,8 +165,8 @@ Proof. destruct fe; [contradiction|reflexivity]. Qed.
 Lemma export_str_layer fe sec t b : fe <> 0%nat -> export fe ([str_layer sec false t] ++ b) = Some (XScalar sec false (SStr t)).
 Proof. intro H. apply export_scalar_top, H. Qed.
 
-Lemma to_string_known_scalar s sch x r : to_string big_fuel (LScalar s false sch x :: r) = (scalar_text x, false, s).
-Proof. destruct big_fuel_S as [g ->]. reflexivity. Qed.
+Lemma to_string_known_scalar s sch x r : to_string (ts_need (LScalar s false sch x :: r)) (LScalar s false sch x :: r) = (scalar_text x, false, s).
+Proof. reflexivity. Qed.
 
 Lemma mapM_Forall2' {A B} (g : A -> option B) l : forall out, mapM g l = Some out -> Forall2 (fun a b => g a = Some b) l out.
 Proof.
@@ -285,6 +288,6 @@ Proof.
   destruct xin as [| |s u m]; try discriminate Hs.
   destruct (prov_out p (XObj s u m)) as [o|] eqn:Eo; [|discriminate Hs].
   rewrite vok_in_always, (cu_of_export _ _ Hx), Eu in HX. cbn [negb orb] in HX.
-  destruct HX as (s0 & u0 & m0 & o0 & Hx' & Ho' & ->). rewrite Hx in Hx'. injection Hx' as <- <- <-.
+  destruct HX as (s0 & u0 & m0 & o0 & Hx' & Ho' & ->). rewrite (et_of_export _ _ Hx) in Hx'. injection Hx' as <- <- <-.
   rewrite Eo in Ho'. injection Ho' as <-. exact Hs.
 Qed.
